@@ -327,15 +327,17 @@ PROPS = {
         ],
     },
     "C03": {
-        "lean_modules": ["TableauVerif.Props.C03", "TableauVerif.Props.C03Frac", "TableauVerif.Props.C20Dur"],
-        "oracles": ["c03.parse", "c03.frac", "c03.cmp", "c20.dur", "c03.reject"],
+        "lean_modules": ["TableauVerif.Props.C03", "TableauVerif.Props.C03Frac", "TableauVerif.Props.C03Enum", "TableauVerif.Props.C20Dur"],
+        "oracles": ["c03.parse", "c03.frac", "c03.cmp", "c20.dur", "c03.reject", "c03.enum"],
         "streams": [
+            ("corr.xproto.enum", 6000, 200000),
             ("e2e.C03.reject", 800, 30000),
             ("corr.xproto.duration", 10000, 200000),
             ("corr.xproto.parseFieldValue", 60000, 1500000),
             ("corr.xproto.fraction", 30000, 400000),
         ],
         "assumptions": [
+            "enum cells: parseEnumValue is modelled (Model.EnumLit: number through the float reading and truncation, name, alias, E2006) and judged by Spec.C03Enum; special floats, out-of-int32 numbers and digit-led texts with underscores are answered 'unmodelled'",
             "modelled: ParseFieldValue for the int32/uint32/int64/uint64 families and bool (strconv.ParseInt/ParseUint/ParseBool and the decimal subset of ParseFloat transliterated); "
             "answered 'unmodelled' (compared by the oracle only): hex floats, '_' separators, non-integer literals with more than 15 digits",
             "strconv.ParseFloat's float64 rounding is not modelled; the modelled class is chosen so that rounding cannot change the result (DESIGN.md C03)",
